@@ -26,12 +26,10 @@ func c15StoreErr(err error) string {
 		return "ok -"
 	case errors.Is(err, clientdb.ErrNoSidecar):
 		return "err nosidecar"
-	case strings.Contains(err.Error(), "offer signing pubkey cannot be nil"):
-		return "err nokey"
-	case strings.Contains(err.Error(), "already exists"):
-		return "err exists"
 	}
-	return "err codec-" + decErrName(err)
+	// refused write (no offer key / key occupied) or codec error: no
+	// sentinel, one class
+	return "err refused"
 }
 
 func c15FmtTickets(ts []*sidecar.Ticket) string {
